@@ -47,6 +47,89 @@ fn migrate(args: &[String]) {
     }
 }
 
+/// the lookups the codecs perform, on the real database, compared with a direct walk of the maps
+fn lookups() {
+    use rbx_reflection::{PropertyKind, PropertySerialization};
+    let db = rbx_reflection_database::get();
+    let mut chain_failures = Vec::new();
+    let mut default_failures = Vec::new();
+    let mut serialized_failures = Vec::new();
+    for (cname, class) in &db.classes {
+        // direct walk
+        let mut walk = vec![class.name.to_string()];
+        let mut cur = class;
+        while let Some(s) = &cur.superclass {
+            cur = &db.classes[s];
+            walk.push(cur.name.to_string());
+        }
+        let got: Option<Vec<String>> = db.superclasses(class).map(|v| v.iter().map(|c| c.name.to_string()).collect());
+        let it: Vec<String> = db.superclasses_iter(class).map(|c| c.name.to_string()).collect();
+        if got.as_ref() != Some(&walk) || it != walk {
+            chain_failures.push(cname.to_string());
+        }
+        // every default defined anywhere on the chain is found from this class, nearest definition wins
+        let mut seen = std::collections::HashSet::new();
+        let mut cur = Some(class);
+        while let Some(c) = cur {
+            for (pname, value) in &c.default_properties {
+                if seen.insert(pname.to_string()) {
+                    match db.find_default_property(class, pname) {
+                        Some(v) if format!("{:?}", v) == format!("{:?}", value) => {}
+                        _ => default_failures.push(format!("{}.{}", cname, pname)),
+                    }
+                }
+            }
+            cur = c.superclass.as_ref().map(|s| &db.classes[s]);
+        }
+        for (pname, p) in &class.properties {
+            if let PropertyKind::Canonical { serialization: PropertySerialization::SerializesAs(t) } = &p.kind {
+                // observable only where the class (or an ancestor) has a default for the property
+                if db.find_default_property(class, pname).is_none() {
+                    continue;
+                }
+                let r = rbx_binary_find(db, cname, pname);
+                if r.as_deref() != Some(t.as_ref()) {
+                    serialized_failures.push(format!("{}.{} -> {} (got {:?})", cname, pname, t, r));
+                }
+            }
+        }
+    }
+    chain_failures.sort();
+    default_failures.sort();
+    serialized_failures.sort();
+    println!(
+        "{}",
+        serde_json::json!({"classes": db.classes.len(), "chain_failures": chain_failures.len(), "chain_examples": &chain_failures[..chain_failures.len().min(5)],
+            "default_failures": default_failures.len(), "default_examples": &default_failures[..default_failures.len().min(5)],
+            "serialized_failures": serialized_failures.len(), "serialized_examples": &serialized_failures[..serialized_failures.len().min(5)]})
+    );
+}
+
+/// rbx_binary's find_property_descriptors is crate-private: observe it through the writer - the name under which a property of a
+/// bare instance of the class is written is the serialized descriptor's name
+fn rbx_binary_find(db: &'static rbx_reflection::ReflectionDatabase<'static>, class: &str, prop: &str) -> Option<String> {
+    let value = db.classes[class].properties[prop].data_type.clone();
+    let default = db.find_default_property(&db.classes[class], prop)?.clone();
+    let _ = value;
+    let dom = rbx_dom_weak::WeakDom::new(rbx_dom_weak::InstanceBuilder::new(class).with_property(prop, default));
+    let mut out = Vec::new();
+    rbx_binary::Serializer::new().compression_type(rbx_binary::CompressionType::None).serialize(&mut out, &dom, &[dom.root_ref()]).ok()?;
+    // PROP chunk names in the file
+    let mut names = Vec::new();
+    let mut pos = 32;
+    while pos + 16 <= out.len() {
+        let name = &out[pos..pos + 4];
+        let len = u32::from_le_bytes([out[pos + 8], out[pos + 9], out[pos + 10], out[pos + 11]]) as usize;
+        let body = &out[pos + 16..pos + 16 + len];
+        if name == b"PROP" {
+            let n = u32::from_le_bytes([body[4], body[5], body[6], body[7]]) as usize;
+            names.push(String::from_utf8_lossy(&body[8..8 + n]).to_string());
+        }
+        pos += 16 + len;
+    }
+    names.into_iter().find(|n| n != "Name")
+}
+
 fn main() {
     let args: Vec<String> = std::env::args().collect();
     let cmd = args.get(1).map(|s| s.as_str()).unwrap_or("");
@@ -55,6 +138,27 @@ fn main() {
     let r = catch_unwind(AssertUnwindSafe(|| match cmd {
         "print-forms" => print_forms(),
         "migrate" => migrate(&args[2..]),
+        "lookups" => lookups(),
+        "uniqueid-race" => {
+            // <threads> <calls>: real UniqueId::now on real threads; counts ids returned more than once
+            let threads: usize = args[2].parse().unwrap();
+            let calls: usize = args[3].parse().unwrap();
+            let hs: Vec<_> = (0..threads)
+                .map(|_| std::thread::spawn(move || (0..calls).filter_map(|_| UniqueId::now().ok()).map(|u| (u.index(), u.time(), u.random())).collect::<Vec<_>>()))
+                .collect();
+            let mut all = Vec::new();
+            for h in hs {
+                all.extend(h.join().unwrap());
+            }
+            let total = all.len();
+            all.sort();
+            all.dedup();
+            // the index counter wraps after 2^32 calls: stay far below
+            let mut idx: Vec<u32> = all.iter().map(|x| x.0).collect();
+            idx.sort();
+            idx.dedup();
+            println!("{{\"calls\": {}, \"duplicates\": {}, \"duplicate_indices\": {}}}", total, total - all.len(), total - idx.len());
+        }
         "sstring" => ss_replay::main(&args[2..]),
         "dom" => dom_replay::main(&args[2..]),
         "bytes" => bytes_replay::main(&args[2..]),
